@@ -161,8 +161,8 @@ mjd2ht(const unsigned int *cal, size_t nm, mjd_t d)
 	unsigned int m;
 
 	for (i = 0U; i < nm && MT(cal)[i] <= d; i++);
-	if (UNLIKELY(i >= nm)) {
-		/* that's beyond our time */
+	if (UNLIKELY(!i || i >= nm)) {
+		/* that's before or beyond our time */
 		goto nil;
 	}
 	/* M is the month count */
